@@ -1,13 +1,19 @@
 (** C09 — happens-before and data races on traces of synchronisation and access events.
 
-    A trace is a list of events: memory accesses (thread, location, read/write, plain/atomic)
-    and mutex acquire / release.  [hb] is the C++11 happens-before relation restricted to what
-    the control code uses: sequenced-before (program order) and the synchronises-with edges of
-    mutexes (an unlock synchronises with every later lock of the same mutex), closed
-    transitively.  Relaxed atomics give no ordering; condition variables order nothing by
-    themselves (their mutex does).  [race tr]: two conflicting accesses — same location,
-    different threads, at least one write, not both atomic — that are not ordered by [hb].
-    [raceb] is an executable one-pass decision procedure, proved equivalent. *)
+    A trace is a list of events in an order consistent with the modification order of every
+    location (the model produces interleavings; hook H5 logs an access and its event under one
+    lock): memory accesses (thread, location, read/write, kind) and mutex acquire / release.
+    Access kinds: [Plain] (ordinary object), [Atomic] (std::atomic with the default seq_cst
+    order), [Relaxed] (std::atomic with memory_order_relaxed: never races, orders nothing).
+    [hb] is the C++11 happens-before relation restricted to what the control code uses:
+      - sequenced-before (program order),
+      - an unlock synchronises with every later lock of the same mutex,
+      - an [Atomic] store synchronises with every [Atomic] load that reads from it; a load reads
+        from the last write to its location that precedes it in the trace,
+    closed transitively.  Condition variables order nothing by themselves (their mutex does).
+    [race_on tr P]: two conflicting accesses to a location selected by P — same location,
+    different threads, at least one write, at least one of them [Plain] — not ordered by [hb].
+    [raceb_on] is an executable one-pass decision procedure, proved equivalent (RaceProofs.v). *)
 From Coq Require Import List Bool Arith Lia Relations.
 Import ListNotations.
 
@@ -16,25 +22,32 @@ Definition tid := nat.
 Inductive loc :=
 | LQueue (t : tid)        (* Communicator::cmdQueue of thread t *)
 | LFlag (t : tid)         (* Notifier::notified of thread t's notifier *)
-| LSearch                 (* EngineMainThread::search *)
-| LQuit                   (* EngineMainThread::quitFlag *)
+| LSearch                 (* EngineMainThread::search      (std::atomic<bool>) *)
+| LQuit                   (* EngineMainThread::quitFlag    (std::atomic<bool>) *)
 | LParams                 (* EngineMainThread::{sc,pos,moves,maxDepth,...}: parameters of the next search *)
-| LPonder.                (* EngineControl::ponder / infinite (std::atomic<bool>) *)
+| LPonder                 (* EngineControl::ponder / infinite (std::atomic<bool>) *)
+| LPend                   (* EngineMainThread::pendingOptions *)
+| LFin                    (* EngineMainThread::optionsSetFinished *)
+| LOpt                    (* option values: Parameters / UciParams::* (plain members) *)
+| LTT.                    (* TranspositionTable geometry and generation (table, usedSize, generation, ...) *)
 
 Inductive mutex :=
 | MQ (t : tid)            (* Communicator::mutex of thread t's communicator *)
 | MN (t : tid)            (* Notifier::mutex of thread t's notifier *)
 | ME.                     (* EngineMainThread::mutex *)
 
+Inductive kind := Plain | Atomic | Relaxed.
+
 Inductive tev :=
-| Acc (t : tid) (l : loc) (w : bool) (atomic : bool)
+| Acc (t : tid) (l : loc) (w : bool) (k : kind)
 | Acq (t : tid) (m : mutex)
 | Rel (t : tid) (m : mutex).
 
 Definition loc_eqb (a b : loc) : bool :=
   match a, b with
   | LQueue x, LQueue y | LFlag x, LFlag y => Nat.eqb x y
-  | LSearch, LSearch | LQuit, LQuit | LParams, LParams | LPonder, LPonder => true
+  | LSearch, LSearch | LQuit, LQuit | LParams, LParams | LPonder, LPonder
+  | LPend, LPend | LFin, LFin | LOpt, LOpt | LTT, LTT => true
   | _, _ => false
   end.
 Definition mutex_eqb (a b : mutex) : bool :=
@@ -57,12 +70,19 @@ Qed.
 Definition ev_tid (e : tev) : tid :=
   match e with Acc t _ _ _ | Acq t _ | Rel t _ => t end.
 
+Definition is_plain (k : kind) : bool := match k with Plain => true | _ => false end.
+Definition is_atomic (k : kind) : bool := match k with Atomic => true | _ => false end.
+
 Definition conflictb (e1 e2 : tev) : bool :=
   match e1, e2 with
-  | Acc t1 l1 w1 a1, Acc t2 l2 w2 a2 =>
-      loc_eqb l1 l2 && negb (Nat.eqb t1 t2) && (w1 || w2) && negb (a1 && a2)
+  | Acc t1 l1 w1 k1, Acc t2 l2 w2 k2 =>
+      loc_eqb l1 l2 && negb (Nat.eqb t1 t2) && (w1 || w2) && (is_plain k1 || is_plain k2)
   | _, _ => false
   end.
+
+(** e writes location l *)
+Definition writes (l : loc) (e : tev) : bool :=
+  match e with Acc _ l' true _ => loc_eqb l' l | _ => false end.
 
 Definition sel (P : loc -> bool) (e : tev) : bool :=
   match e with Acc _ l _ _ => P l | _ => false end.
@@ -76,7 +96,11 @@ Definition po (i j : nat) : Prop :=
   i < j /\ exists a b, at_ i = Some a /\ at_ j = Some b /\ ev_tid a = ev_tid b.
 Definition sw (i j : nat) : Prop :=
   i < j /\ exists t1 t2 m, at_ i = Some (Rel t1 m) /\ at_ j = Some (Acq t2 m).
-Definition edge (i j : nat) : Prop := po i j \/ sw i j.
+(** the atomic load at j reads from the atomic store at i: no write to the location in between *)
+Definition rf (i j : nat) : Prop :=
+  i < j /\ exists t1 t2 l, at_ i = Some (Acc t1 l true Atomic) /\ at_ j = Some (Acc t2 l false Atomic) /\
+           forall k e, i < k < j -> at_ k = Some e -> writes l e = false.
+Definition edge (i j : nat) : Prop := po i j \/ sw i j \/ rf i j.
 Definition hb : nat -> nat -> Prop := clos_trans nat edge.
 
 (** a race on one of the locations selected by P *)
@@ -87,36 +111,52 @@ Definition race : Prop := race_on (fun _ => true).
 End Rel.
 
 (** ---- executable decision procedure ----
-    Scan forward from position i keeping the threads and mutexes already "reached": an event is
-    hb-after i iff its thread has a reached event before it, or it acquires a mutex released by
-    a reached event before it. *)
+    Scan forward from position i keeping what is already "reached": the threads with a reached
+    event, the mutexes released by a reached event, and the locations whose latest write is an
+    atomic store that is reached.  An event is hb-after i iff its thread is reached, or it
+    acquires a reached mutex, or it is an atomic load of a location whose latest write is such
+    a store. *)
 Definition mem_nat (x : nat) (l : list nat) : bool := existsb (Nat.eqb x) l.
 Definition mem_mutex (m : mutex) (l : list mutex) : bool := existsb (mutex_eqb m) l.
+Definition mem_loc (x : loc) (l : list loc) : bool := existsb (loc_eqb x) l.
+Definition rm_loc (x : loc) (l : list loc) : list loc := filter (fun y => negb (loc_eqb x y)) l.
 
-Definition reachedb (ts : list tid) (ms : list mutex) (e : tev) : bool :=
-  mem_nat (ev_tid e) ts ||
-  match e with Acq _ m => mem_mutex m ms | _ => false end.
+Record sets := mkSets { s_ts : list tid; s_ms : list mutex; s_ls : list loc }.
 
-Definition upd_sets (ts : list tid) (ms : list mutex) (e : tev) : list tid * list mutex :=
-  (ev_tid e :: ts, match e with Rel _ m => m :: ms | _ => ms end).
+Definition reachedb (st : sets) (e : tev) : bool :=
+  mem_nat (ev_tid e) (s_ts st) ||
+  match e with
+  | Acq _ m => mem_mutex m (s_ms st)
+  | Acc _ l false Atomic => mem_loc l (s_ls st)
+  | _ => false
+  end.
+
+(** sets after event e, which is reached iff r *)
+Definition next_sets (st : sets) (e : tev) (r : bool) : sets :=
+  mkSets (if r then ev_tid e :: s_ts st else s_ts st)
+         (match e with Rel _ m => if r then m :: s_ms st else s_ms st | _ => s_ms st end)
+         (match e with
+          | Acc _ l true k => if r && is_atomic k then l :: s_ls st else rm_loc l (s_ls st)
+          | _ => s_ls st
+          end).
 
 (** does some event of [rest] conflict with [a] without being hb-after it? *)
-Fixpoint scan (a : tev) (ts : list tid) (ms : list mutex) (rest : list tev) : bool :=
+Fixpoint scan (a : tev) (st : sets) (rest : list tev) : bool :=
   match rest with
   | [] => false
   | e :: r =>
-      if reachedb ts ms e
-      then let (ts', ms') := upd_sets ts ms e in scan a ts' ms' r
-      else conflictb a e || scan a ts ms r
+      let rb := reachedb st e in
+      (negb rb && conflictb a e) || scan a (next_sets st e rb) r
   end.
 
-Definition start_sets (a : tev) : list tid * list mutex :=
-  ([ev_tid a], match a with Rel _ m => [m] | _ => [] end).
+Definition start_sets (a : tev) : sets :=
+  mkSets [ev_tid a]
+         (match a with Rel _ m => [m] | _ => [] end)
+         (match a with Acc _ l true Atomic => [l] | _ => [] end).
 
 Fixpoint raceb_on (P : loc -> bool) (tr : list tev) : bool :=
   match tr with
   | [] => false
-  | a :: r =>
-      (if sel P a then let (ts, ms) := start_sets a in scan a ts ms r else false) || raceb_on P r
+  | a :: r => (if sel P a then scan a (start_sets a) r else false) || raceb_on P r
   end.
 Definition raceb (tr : list tev) : bool := raceb_on (fun _ => true) tr.
